@@ -1,3 +1,158 @@
-import Gossamer.Lib.C08Spec
+/-
+C08 — Runtime storage transactions are transparent and roll back exactly.
+
+Model: `Gossamer/Model/C08.lean` (`storageDiff` + `TrieState`, generic in the committed trie).
+Two instances of the committed trie (`Gossamer/Lib/C08Backend.lean`): `memBackend` = the in-memory
+trie as it is (tied to the Go code by the differential run) and `idealBackend` = a correct
+`trie.Trie` on ordered maps.  Specification: `Gossamer/Lib/C08Spec.lean` (stack of logical states).
+
+Proved here
+* `C08_rollback` — FULL STRENGTH, for every backend (also the in-memory one), every operation of
+  the model (limits, child tries, panicking calls) and every nesting depth: `start ++ xs ++ rollback`
+  with balanced `xs` restores the state exactly.
+* `C08_diffs_sorted` — every diff of every reachable state (any backend, any ops) has strictly
+  sorted maps, i.e. is a legal input of the next theorem.
+* `C08_applyToTrie_order` — over a correct trie, `applyToTrie` gives the same trie for every
+  iteration order of the Go maps (and never panics).
+* `C08_refines_partial`, `C08_commit_outermost_partial` — on the transactional key-value fragment
+  (put / delete / get on main storage and on child storage, start / commit / rollback at any
+  depth), provided no string is used both as a main key and as a child-trie key and no main key
+  lies below `:child_storage:default:`, every observable of the model over a correct trie equals
+  the specification's, every transaction level has exactly the specification's logical content,
+  and the outermost commit leaves exactly the specification's committed state (same entries, same
+  child tries, hence the same root for any root function).
+  Full statement that is NOT provable for the code as it is:
+      ∀ ops, observables (model over the ideal trie) ops = observables spec ops.
+  The `_counterexample` theorems show it fails outside the fragment, one per known finding.
+-/
+import Gossamer.Lib.C08SimStep
+import Gossamer.Lib.C08Reach
 namespace Gossamer.C08
+open Gossamer
+
+/-! ### rollback -/
+
+/-- A rollback restores exactly the state at the matching start: any backend `B`, any iteration
+    order `ord`, any operations in between whose transactions are balanced. -/
+theorem C08_rollback {β τ : Type} (B : Backend β τ) (D : Dumper β) (ord : Diff → ApplyOrder)
+    (s : TS β) (xs : List Op) (hb : Balanced xs) :
+    (runTS B D ord s ([Op.start] ++ xs ++ [Op.rollback])).1 = s :=
+  rollback_exact B D ord s xs hb
+
+/-- the hypothesis is satisfiable by a non-trivial history (nested commit and rollback, limits,
+    child tries) -/
+example : Balanced [Op.put [1] (some [2]), Op.start, Op.clrl [1] 1, Op.commit, Op.start,
+    Op.kill [3], Op.rollback, Op.cput [3] [4] none] := by
+  unfold Balanced; rfl
+
+/-! ### reachable diffs are sorted; `applyToTrie` is order independent -/
+
+theorem C08_diffs_sorted {β τ : Type} (B : Backend β τ) (D : Dumper β) (ord : Diff → ApplyOrder)
+    (b : β) (ops : List Op) :
+    ∀ d ∈ (runTS B D ord { base := b, txs := [] } ops).1.txs, d.SortedD :=
+  run_sorted B D ord ops _ (fun _ h => by simp at h)
+
+/-- Go's map iteration order does not matter: for a well-formed committed state `b` and a diff `d`
+    with sorted maps (every reachable diff: `C08_diffs_sorted`), any two orders `o1`, `o2` of the
+    maps of `d` give the same committed state, without panic. -/
+theorem C08_applyToTrie_order (Hc Hm : Entries → Bytes) (b : Logical) (d : Diff)
+    (o1 o2 : ApplyOrder) (hb : b.WF) (hd : d.SortedD) (h1 : IsOrderOf d o1) (h2 : IsOrderOf d o2) :
+    applyToTrie (idealBackend Hc Hm) b o1 = applyToTrie (idealBackend Hc Hm) b o2 ∧
+      (applyToTrie (idealBackend Hc Hm) b o1).isSome = true := by
+  rw [applyToTrie_ideal, applyToTrie_ideal, applyIdeal_order hd.wf h1 h2 hb]
+  exact ⟨rfl, rfl⟩
+
+/-- the order used by the executable model is one of the orders -/
+theorem C08_sortedOrder_isOrder (d : Diff) (hd : d.SortedD) : IsOrderOf d d.sortedOrder :=
+  sortedOrder_isOrder hd.wf
+
+/-! ### refinement on the transactional key-value fragment -/
+
+/-- Every observable of the model over a correct trie equals the specification's. -/
+theorem C08_refines_partial (Hc Hm : Entries → Bytes) (D : Dumper Logical) (CK : Bytes → Bool)
+    (ops : List Op) (hops : ∀ op ∈ ops, OpOK CK op) :
+    (runTS (idealBackend Hc Hm) D Diff.sortedOrder { base := Logical.empty, txs := [] } ops).2 =
+      (specRun Hc Hm { back := Logical.empty, stack := [] } ops).2 :=
+  (sim_run Hc Hm D (sim_init CK) ops hops).2
+
+/-- Contents: after any history of the fragment the committed trie IS the specification's
+    committed state and every open transaction level has the specification's logical content; in
+    particular the outermost commit leaves the same entries and child tries as the specification
+    (which applies the operations directly to a copy), hence the same root. -/
+theorem C08_commit_outermost_partial (Hc Hm : Entries → Bytes) (D : Dumper Logical)
+    (CK : Bytes → Bool) (ops : List Op) (hops : ∀ op ∈ ops, OpOK CK op) :
+    let t := (runTS (idealBackend Hc Hm) D Diff.sortedOrder { base := Logical.empty, txs := [] } ops).1
+    let s := (specRun Hc Hm { back := Logical.empty, stack := [] } ops).1
+    t.base = s.back ∧ t.txs.map (effL t.base) = s.stack ∧
+      (idealBackend Hc Hm).hash t.base = Hm (Logical.view Hc s.back) ∧
+      (idealBackend Hc Hm).entries t.base = (Logical.view Hc s.back).map (fun e => (e.1, some e.2)) := by
+  intro t s
+  have h := (sim_run Hc Hm D (sim_init CK) ops hops).1
+  refine ⟨h.back.symm, h.stack.symm, ?_, ?_⟩
+  · show Hm (Logical.view Hc t.base) = Hm (Logical.view Hc s.back)
+    rw [h.back]
+  · show (Logical.view Hc t.base).map _ = _
+    rw [h.back]
+
+/-- the fragment is not empty: main and child keys kept apart by a first byte -/
+example : ∀ op ∈ [Op.put [1] (some [2]), Op.start, Op.cput [0x4b, 1] [1] (some [3]), Op.start,
+    Op.del [1], Op.rollback, Op.cdel [0x4b, 1] [1], Op.commit, Op.get [1], Op.cget [0x4b, 1] [1]],
+    OpOK (fun k => k.head? == some 0x4b) op := by
+  intro op h
+  simp only [List.mem_cons, List.mem_nil_iff, or_false] at h
+  rcases h with rfl | rfl | rfl | rfl | rfl | rfl | rfl | rfl | rfl | rfl <;>
+    simp [OpOK, Logical.isChildKey, childPrefix, List.isPrefixOf]
+
+/-! ### outside the fragment the code deviates (one witness per known finding) -/
+
+/-- root function used in the witnesses -/
+def H0 : Entries → Bytes := fun _ => []
+
+def D0 : Dumper Logical := ⟨fun _ => []⟩
+
+def valOf : Out → Option (Option Bytes)
+  | .val v => some v
+  | _ => none
+
+def cntOf : Out → Option (Nat × Bool)
+  | .cnt n a => some (n, a)
+  | _ => none
+
+def lastI (ops : List Op) : Option Out :=
+  (runTS (idealBackend H0 H0) D0 Diff.sortedOrder { base := Logical.empty, txs := [] } ops).2.getLast?
+
+def lastS (ops : List Op) : Option Out :=
+  (specRun H0 H0 { back := Logical.empty, stack := [] } ops).2.getLast?
+
+/-- finding `deletes-shared-by-main-and-child`: deleting the main key `a` inside a transaction
+    deletes the child trie `a` at commit and leaves the main key -/
+theorem C08_refines_counterexample_shared_deletes :
+    let ops := [Op.put [0x61] (some [1]), Op.cput [0x61] [0x61] (some [2]), Op.start,
+      Op.del [0x61], Op.commit, Op.get [0x61]]
+    (lastI ops).bind valOf = some (some [1]) ∧ (lastS ops).bind valOf = some none := by decide
+
+/-- finding `child-recreated-after-kill`: a child trie deleted and written again inside one
+    transaction keeps its old keys -/
+theorem C08_refines_counterexample_kill_then_put :
+    let ops := [Op.cput [0x61] [1] (some [2]), Op.start, Op.kill [0x61],
+      Op.cput [0x61] [3] (some [4]), Op.commit, Op.cget [0x61] [1]]
+    (lastI ops).bind valOf = some (some [2]) ∧ (lastS ops).bind valOf = some none := by decide
+
+/-- finding `alldeleted-counts-nonmatching`: `allDeleted` is false because an unrelated key was
+    written in the transaction -/
+theorem C08_refines_counterexample_alldeleted :
+    let ops := [Op.start, Op.put [0x71] (some [1]), Op.clrl [0x61] 1]
+    (lastI ops).bind cntOf = some (0, false) ∧ (lastS ops).bind cntOf = some (0, true) := by decide
+
+/-- finding `child-root-key-unprotected`: a prefix clear inside a transaction hides the root
+    entry of a committed child trie -/
+theorem C08_refines_counterexample_child_root_key :
+    let ops := [Op.cput [0x61] [1] (some [2]), Op.start, Op.clr [], Op.get (childPrefix ++ [0x61])]
+    (lastI ops).bind valOf = some none ∧ (lastS ops).bind valOf = some (some []) := by decide
+
+/-- finding `child-root-ignores-overlay`: `GetChildRoot` does not see the transaction -/
+theorem C08_refines_counterexample_child_root :
+    let ops := [Op.start, Op.cput [0x61] [1] (some [2]), Op.croot [0x61]]
+    (lastI ops).bind valOf = some none ∧ (lastS ops).bind valOf = some (some []) := by decide
+
 end Gossamer.C08
